@@ -11,7 +11,13 @@ trap cleanup EXIT
 cd "$wt"
 git apply "$d/patch.diff" || { echo "$name: APPLY-FAILED"; exit 1; }
 go build ./... > /tmp/sv.$name.log 2>&1 || { echo "$name: BUILD-FAILED"; exit 1; }
-suite=pass; go test -vet=off -count=1 ./... >> /tmp/sv.$name.log 2>&1 || suite=FAIL
+# tests/TestEdgeNeighbor is flaky on the pinned commit itself (a Yule tree whose root has a tip child, ~10 % of runs): retry
+suite=FAIL
+for try in 1 2 3; do
+  if go test -vet=off -count=1 ./... > /tmp/sv.$name.suite 2>&1; then suite=pass; break; fi
+  grep -q -- '--- FAIL' /tmp/sv.$name.suite && ! grep -- '--- FAIL' /tmp/sv.$name.suite | grep -vq TestEdgeNeighbor || break
+done
+cat /tmp/sv.$name.suite >> /tmp/sv.$name.log; rm -f /tmp/sv.$name.suite
 fn=$(grep -o 'func TestDemo[A-Za-z0-9_]*' "$d/demo_test.go" | head -1 | sed 's/func //')
 cp "$d/demo_test.go" tests/zz_demo_${name//-/_}_test.go
 with=pass; go test -vet=off -count=1 -run "^$fn\$" ./tests/ >> /tmp/sv.$name.log 2>&1 || with=FAIL
